@@ -5,12 +5,12 @@ claim("C19",
       "Trusted: numpy median/sort, the restated formulas in vk/models.py; metamorphic clauses only on exactly representable shifts; ties at branch thresholds accept either branch.",
       "DESIGN.md 5/C19")
 claim("C01",
-      "bounded-exhaustive grid + property-based testing (Hypothesis) against the mixing-model inverse restated in the harness",
+      "bounded-exhaustive grid + property-based testing (Hypothesis) against the mixing-model inverse restated in the harness; a quarter of the cases also run `cnvkit.py call` in-process on written files as a differential against the library call",
       "Every (ploidy, reference sex, sample sex, naming, PAR genome, purity-grid) configuration x n in 0..12 x chromosome class is enumerated (1872 do_call runs, exhaustive for that grid) and generated purities/log2 values extend it; cn must equal the planted n, log2 must be rewritten to the pure ratio, cn must be a non-negative integer for arbitrary log2. Exhaustive on the grid, sampling beyond it.",
       "Trusted: the r/x table restated from the statement; purities >= 1e-6; tie values at .5 accept either rounding.",
       "DESIGN.md 5/C01")
 claim("C02",
-      "property-based testing (Hypothesis) with constructed boundary probes against the step-function definition",
+      "property-based testing (Hypothesis) with constructed boundary probes against the step-function definition; a quarter of the cases also run `cnvkit.py call` in-process on written files as a differential against the library call",
       "Threshold vectors, ploidies and reference sexes are generated; probe log2 values are constructed at every threshold, the adjacent doubles, every integer crossing of r*2^log2, random reals and NaN, and each row is compared with the definition restated in the harness; allelic split clauses checked for generated BAFs.",
       "Trusted: the restated definition; monotone corollary asserted for ploidy >= 2 only (the definition contradicts it at ploidy 1).",
       "DESIGN.md 5/C02")
@@ -25,37 +25,37 @@ claim("C07",
       "Trusted: the select() model; sorted tables; iter_ranges_of not exercised with trim.",
       "DESIGN.md 5/C07")
 claim("C14",
-      "property-based testing (Hypothesis) against an independent run-squashing model, directly and through do_call filter lists",
+      "property-based testing (Hypothesis) against an independent run-squashing model, directly and through do_call filter lists; a quarter of the cases also run `cnvkit.py call --filter` in-process on written files as a differential against the library call",
       "Generated segment tables (sticky cn runs, CI/SEM around zero, zero weights, allelic cn with NaN) are filtered by each filter directly and by ordered filter lists through do_call with every method; outputs compared with a model that squashes maximal runs of equal (chromosome, level) and with direct conservation clauses.",
       "Trusted: squash model; cnvkit's own call for copy numbers inside filter lists (C01/C02); weighted_median (C19).",
       "DESIGN.md 5/C14")
 claim("C20",
-      "property-based testing (Hypothesis): exported BED/VCF/SEG/JTV/CDT/Nexus records re-derived row by row from the generated calls",
+      "property-based testing (Hypothesis): exported BED/VCF/SEG/JTV/CDT/Nexus records re-derived row by row from the generated calls; a quarter of the cases also run `cnvkit.py export bed / vcf / seg` in-process on written files as a differential against the library call",
       "Generated segment tables (with/without cn, autosome/X/Y/PAR rows, start 0) and 1..5-sample file sets (mismatching bins, duplicate IDs) are exported; the harness parses the output back and re-derives which records must appear and what each field must say.",
       "Trusted: r/x table shared with C01; integer probes; PAR rows excluded where BED and VCF paths use different reference copies for cn-less tables.",
       "DESIGN.md 5/C20")
 claim("C16",
-      "property-based testing (Hypothesis): expected grouping read off a generated layout plan; genemetrics/squash/breaks rows re-derived",
+      "property-based testing (Hypothesis): expected grouping read off a generated layout plan; genemetrics/squash/breaks rows re-derived; a quarter of the cases also run `cnvkit.py genemetrics / breaks` in-process on written files as a differential against the library call",
       "Generated chromosome layouts (genes, interrupted genes, intergenic stretches at every position, single trailing bins, gene-less chromosomes, stepped row index, optional segments cutting genes) give the expected by_gene sequence by construction; genemetrics (with and without segments), squash_genes and breaks are compared with rows re-derived from the plan.",
       "Trusted: the plan-to-groups reading; explicit sample sex; positive weights; comma-free names.",
       "DESIGN.md 5/C16")
 claim("C17",
-      "property-based testing (Hypothesis): per-segment statistics and bin tests recomputed independently on the bins selected by the overlap inequality",
+      "property-based testing (Hypothesis): per-segment statistics and bin tests recomputed independently on the bins selected by the overlap inequality; a quarter of the cases also run `cnvkit.py segmetrics / bintest` in-process on written files as a differential against the library call",
       "Generated bin tables and segmentations (bin-less, one-bin, large segments, boundaries at bin edges and inside bins, ties, null-coverage bins, stepped index) are run through segmetrics with generated statistic subsets and through bintest; every value is compared with an independent computation, the bootstrap CI is checked for order, range and reproducibility under reseeded global RNGs, BH adjustment against its O(n^2) definition on generated p-value vectors.",
       "Trusted: plain-formula models, scipy.stats.t / erfc; weights in (0,1); borderline decisions within 1e-12 of alpha accepted either way.",
       "DESIGN.md 5/C17")
 claim("C13",
-      "property-based testing (Hypothesis): FASTA texts and exclude BEDs generated from run plans; output compared with a per-base character model",
+      "property-based testing (Hypothesis): FASTA texts and exclude BEDs generated from run plans; output compared with a per-base character model; a quarter of the cases also run `cnvkit.py access` in-process on written files as a differential against the library call",
       "Generated FASTA files (runs of N/n/ACGT/acgt snapped to or straddling line breaks, widths 1..80, empty records, with/without final newline), 0..3 exclude BEDs (nested, overlapping, edge-touching, absent contigs), min-gap 0..300/None and the contig filter are run through get_regions and do_access; the regions must equal the maximal runs of a per-base model (non-N, minus excluded, joined when gap < min_gap) and satisfy the direct clauses (non-empty, sorted, separated, no N/excluded base outside a bridged gap).",
       "Trusted: the per-base model; fixed table of canonical/non-canonical example names; valid FASTA (no blank lines, unique names).",
       "DESIGN.md 5/C13")
 claim("C12",
-      "property-based testing (Hypothesis): target/antitarget bins compared with half-open run algebra restated in the harness",
+      "property-based testing (Hypothesis): target/antitarget bins compared with half-open run algebra restated in the harness; a quarter of the cases also run `cnvkit.py target / antitarget` in-process on written files as a differential against the library call",
       "Generated bait tables (nested, overlapping, abutting, duplicate, zero-width, canonical and non-canonical contigs), access tables (abutting/overlapping/short regions, untargeted contigs) or none, and avg/min sizes are run through do_target (split on/off, short names, annotation) and do_antitarget; bins must tile exactly the union of the non-empty baits resp. the shrunk accessible space minus widened targets with max(1, round(len/avg)) equal bins per run, plus the direct clauses (order, disjointness, margins, size bounds, names, contigs).",
       "Trusted: vk/models.py run algebra; sorted bait tables; default minimum = avg/16; two open findings (contig fallback heuristic, minimum applied before splitting) are excluded by signature and counted.",
       "DESIGN.md 5/C12")
 claim("C15",
-      "property-based testing (Hypothesis): uniform-shift and estimator-zero oracles from restated estimators; planted-truth sex inference",
+      "property-based testing (Hypothesis): uniform-shift and estimator-zero oracles from restated estimators; planted-truth sex inference; a quarter of the cases also run `cnvkit.py sex` in-process on written files as a differential against the library call",
       "Generated bin tables (1..24 chromosomes, both naming styles or no autosome-like names, null bins, PAR-X bins, all four estimators x by_chrom x skip_low x PAR genome) must be shifted by one constant that zeroes the harness restatement of the (two-level) estimator over the selected bins; generated samples with X/Y at the documented levels for their sex and reference sex (noise sd 0.01..0.3, 40..400 X bins, with/without Y, weights, PAR) must be inferred right by guess_xx and do_sex, moved by exactly +-1/0 on X by shift_xx, and get the 0/-1 flat pattern.",
       "Trusted: vk/models.py estimator restatements; PAR coordinates restated; estimator ties accepted either way; sex inference is statistical: decided per generated noise realisation (0 failures in 40 000 at the registered generator).",
       "DESIGN.md 5/C15")
@@ -70,27 +70,27 @@ claim("C08",
       "Trusted: the harness renderers (written from the published format conventions); names/labels start with a letter or are plain integers; order between exotic contigs not asserted; one open finding (negative zero in an all-integral float column) excluded by signature.",
       "DESIGN.md 5/C08")
 claim("C18",
-      "property-based testing (Hypothesis): generated VCF texts interpreted line by line in the harness and compared with the reader, het selection and per-range BAF",
+      "property-based testing (Hypothesis): generated VCF texts interpreted line by line in the harness and compared with the reader, het selection and per-range BAF; a quarter of the cases also run `cnvkit.py call -v` in-process on written files as a differential against the library call",
       "Generated VCFs (1..3 samples, PEDIGREE or not, GT/AD/DP present, absent or '.', SNVs and indels, SOMATIC/FILTER flags) are read with generated sample/normal selectors, min_depth and skip_somatic; each row must carry the file's start, depth, alt count, alt_freq, zygosity and somatic flag for the pair chosen by the documented precedence, filtered as asked; load_het_snps must keep exactly the germline hets; baf_by_ranges must equal the median of the mirrored het frequencies per range (NaN when none), with TumorBoost and the purity rescale by their formulas, through do_call as well.",
       "Trusted: the harness interpretation of VCF fields; pysam as the parser underneath both; incomplete records only required finite; zero-het fallback and the all-0/0-normal work-around not asserted.",
       "DESIGN.md 5/C18")
 claim("C09",
-      "property-based testing (Hypothesis) with planted truth: synthetic BAMs written with pysam, depths recomputed read by read; serial vs parallel/chunked differential",
+      "property-based testing (Hypothesis) with planted truth: synthetic BAMs written with pysam, depths recomputed read by read; serial vs parallel/chunked differential; a quarter of the cases also run `cnvkit.py coverage` in-process on written files as a differential against the library call",
       "Generated coordinate-sorted BAMs (1..3 contigs, 0..5000 reads straddling bin edges and contig ends, soft clips, every filter flag, MAPQ 0..60, optional I/D/N) and BED files (3/4/6/7 columns, abutting, overlapping, nested, zero-width, past-the-end bins, unsorted, > 5000 lines) are run through do_coverage with both algorithms and mapq cut-offs; every row must carry its bin's coordinates and name and depth = aligned bases of counted reads inside the bin / length (log2 or 0/-20); the table for processes in {2,3,16} and chunk sizes {1,2,7,100,5000} must equal the serial one exactly.",
       "Trusted: pysam/htslib as BAM writer and as the engine under bedcov; the read-by-read model; pileup compared on indel-free BAMs only; OS scheduling not controlled.",
       "DESIGN.md 5/C09")
 claim("C03",
-      "property-based testing (Hypothesis): segment tables compared with survivors recomputed by the package's own filters and with aggregates recomputed over the spanned bins",
+      "property-based testing (Hypothesis): segment tables compared with survivors recomputed by the package's own filters and with aggregates recomputed over the spanned bins; a quarter of the cases also run `cnvkit.py segment` in-process on written files as a differential against the library call",
       "Generated bin tables (1..6 chromosomes, 1..400 bins, centromere gaps, null-coverage edge/interior bins, zero weights, outliers, ignored names) are segmented with none/haar/hmm/hmm-tumor/hmm-germline under every filter combination and 1..16 processes; per chromosome the segments must be sorted, positive, disjoint, inside the input span, hold every surviving bin exactly once with probes equal to the survivors inside, reach the arm's first/last input bin (none, haar), carry weight/depth/gene aggregated over all spanned input bins and (none, HMM) the weighted mean log2 of their survivors; parallel equals serial.",
       "Trusted: the package's filter functions for deciding survivors; harness arm finder; cbs/flasso (R) not installed; one open finding (HMM on <= 3 zero-spread bins) excluded by signature.",
       "DESIGN.md 5/C03")
 claim("C04",
-      "property-based testing (Hypothesis): independent fix_model (coordinate-keyed matching, filters, centring, rolling-median corrections) + metamorphic permutation / rescaling relations",
+      "property-based testing (Hypothesis): independent fix_model (coordinate-keyed matching, filters, centring, rolling-median corrections) + metamorphic permutation / rescaling relations; a quarter of the cases also run `cnvkit.py fix` in-process on written files as a differential against the library call",
       "Generated references (pooled/flat, with/without gc and rmask, bad bins on and beyond every threshold, superset of the sample) and sample target/antitarget tables (subset, empty antitargets, null bins, Picard gc column) are run through do_fix for every subset of corrections; emitted bins, genomic order, class-constant offset (corrections off), exact log2 against the model (tie-free covariates), centring, weight range and monotonicity in size and spread, invariance under row permutation of each input and under depth rescaling, and refusal of missing / duplicated coordinates are checked.",
       "Trusted: vk/models.py rolling median and median; the edge-density formula restated from its docstring; covariate ties skip the exact-value clause; weights of classes with exactly symmetric residuals are not compared across variants (float tie in biweight_midvariance).",
       "DESIGN.md 5/C04")
 claim("C05",
-      "property-based testing (Hypothesis): cohorts written to disk and re-parsed by an independent reference_model (centring, sex shift, pseudo-sample, biweight location/midvariance); planted-truth consequences; gc/rmask by character count",
+      "property-based testing (Hypothesis): cohorts written to disk and re-parsed by an independent reference_model (centring, sex shift, pseudo-sample, biweight location/midvariance); planted-truth consequences; gc/rmask by character count; a quarter of the cases also run `cnvkit.py reference` in-process on written files as a differential against the library call",
       "Generated cohorts of 1..8 coverage files (any sex mix, depth scales, noise, naming style, with/without/empty antitarget files, male/female reference, sexes given or inferred, shuffled file order) are pooled with corrections off and every bin's log2, spread and depth is compared with the restated estimator over the samples plus the flat pseudo-sample; depth-only cohorts must reproduce the centred profile with spread ~ 0 and X/Y must sit at -1/0 and -1; with corrections on the bins and the chromosome-level X/Y medians are checked; mismatching bins must be rejected; flat references give the 0/-1 pattern and gc/rmask equal the character counts of a generated FASTA.",
       "Trusted: vk/models.py biweight restatements (ties accept either branch); the harness .cnn writer/parser; pyfaidx as FASTA reader underneath; sex inference itself is C15's subject.",
       "DESIGN.md 5/C05")
